@@ -173,6 +173,26 @@ impl HostBytes {
   vec_as_slice args
 @*/
 /*@end*/
+/*@fn lang/dynamics/src/impls.rs :: fn bytes_empty
+  plain
+  vec_as_slice args
+@*/
+/*@end*/
+/*@fn lang/dynamics/src/impls.rs :: fn bytes_append
+  plain
+  vec_as_slice args
+@*/
+/*@end*/
+/*@fn lang/dynamics/src/impls.rs :: fn bytes_from_str
+  plain
+  vec_as_slice args
+@*/
+/*@end*/
+/*@fn lang/dynamics/src/impls.rs :: fn str_append
+  plain
+  vec_as_slice args
+@*/
+/*@end*/
 /*@fn lang/dynamics/src/impls.rs :: fn stdin
   plain
   vec_as_slice args
